@@ -99,7 +99,9 @@ func genOptConf(rng *rand.Rand, v6 bool) (string, []string) {
 		}
 		return "dns", a
 	case 3:
-		return "mtu", []string{fmt.Sprint([]int{68, 576, 1280, 1500, 9000, 65535, 68 + rng.Intn(65468)}[rng.Intn(7)])}
+		v := []int{68, 576, 1280, 1500, 9000, 65535, 68 + rng.Intn(65468)}[rng.Intn(7)]
+		// every decimal spelling strconv.Atoi accepts names the same MTU
+		return "mtu", []string{fmt.Sprintf([]string{"%d", "%d", "0%d", "00%d", "+%d", "+0%d"}[rng.Intn(6)], v)}
 	case 4:
 		var a []string
 		for i := 0; i < 1+rng.Intn(4); i++ {
